@@ -324,7 +324,7 @@ func c06R1(p *Prog, r *Report) {
 					if sel, isSel := ast.Unparen(cs.Call.Fun).(*ast.SelectorExpr); isSel {
 						key += " on " + roleOf(ctx, sel.X)
 					}
-					if addrGuarded(ctx, cs.Call, cs.V) || c06DomainAfterNotIP(ctx, cs) {
+					if addrGuarded(ctx, cs.Call, cs.V) || c06DomainAfterNotIP(ctx, cs) || c06ValidByParse(ctx, cs) {
 						nLocal++
 						r.OK(rule, key, cs.Pos(), "dominated by the matching predicate")
 						continue
@@ -1168,4 +1168,47 @@ func (fc *FuncCtx) producer(e ast.Expr) ast.Expr {
 		}
 	}
 	return e
+}
+
+// c06AddrParsers: functions that return a valid (non-zero) conn.Addr whenever they return a nil
+// error (reviewed: each success return builds the address with AddrFromIPPort /
+// AddrFromDomainPort-after-length-check or passes another parser's success result on).
+var c06AddrParsers = map[string]bool{
+	"ConnAddrFromSlice": true, "ConnAddrFromReader": true, "ParseAddr": true, "AddrFromHostPort": true,
+	"AddrFromDomainPort": true, "hostHeaderToAddr": true,
+}
+
+// c06ValidByParse: an accessor that only needs a valid address (Host, ResolveIP, ResolveIPPort)
+// is called on a variable whose only definition reaching the call is the result of a parser, on
+// that parser's success edge.
+func c06ValidByParse(fc *FuncCtx, cs CallSite) bool {
+	needsValid := false
+	for _, n := range addrAccessorNeeds[cs.Fn.Name()] {
+		if n == "IsValid" {
+			needsValid = true
+		}
+	}
+	if !needsValid {
+		return false
+	}
+	info := fc.Info()
+	sel, ok := ast.Unparen(cs.Call.Fun).(*ast.SelectorExpr)
+	if !ok {
+		return false
+	}
+	root := objOf(info, sel.X)
+	if root == nil {
+		return false
+	}
+	for _, c2 := range fc.AllCalls() {
+		if c2.Fn == nil || !c06AddrParsers[c2.Fn.Name()] {
+			continue
+		}
+		for i := 0; i < 3; i++ {
+			if c2.ResultVar(i) == root && c2.SuccessGuards(cs.V) && fc.SoleDef(cs.V, root, c2.V) {
+				return true
+			}
+		}
+	}
+	return false
 }
